@@ -194,8 +194,18 @@ impl<'a, P, const SEED_SIZE: usize> ParameterizedDecode<(&'a Poplar1<P, SEED_SIZ
     ) -> Result<Self, CodecError> {
         let idpf_key = Seed::decode(bytes)?;
         let corr_seed = Seed::decode(bytes)?;
-        let mut corr_inner = Vec::with_capacity(poplar1.bits - 1);
-        for _ in 0..poplar1.bits - 1 {
+        let inner_levels = poplar1.bits.checked_sub(1).ok_or_else(|| {
+            CodecError::Other("Poplar1 requires inputs of at least one bit".into())
+        })?;
+        // Do not trust the instance's bit length for the allocation size beyond what the remaining
+        // input could possibly hold.
+        let remaining = bytes
+            .get_ref()
+            .len()
+            .saturating_sub(usize::try_from(bytes.position()).unwrap_or(usize::MAX));
+        let mut corr_inner =
+            Vec::with_capacity(inner_levels.min(remaining / (2 * Field64::ENCODED_SIZE)));
+        for _ in 0..inner_levels {
             corr_inner.push([Field64::decode(bytes)?, Field64::decode(bytes)?]);
         }
         let corr_leaf = [Field255::decode(bytes)?, Field255::decode(bytes)?];
@@ -656,7 +666,7 @@ impl<'a, P: Xof<SEED_SIZE>, const SEED_SIZE: usize>
         (poplar1, agg_param): &(&'a Poplar1<P, SEED_SIZE>, &'a Poplar1AggregationParam),
         bytes: &mut Cursor<&[u8]>,
     ) -> Result<Self, CodecError> {
-        if agg_param.level() == poplar1.bits - 1 {
+        if agg_param.level() + 1 == poplar1.bits {
             decode_fieldvec(agg_param.prefixes().len(), bytes).map(Poplar1FieldVec::Leaf)
         } else {
             decode_fieldvec(agg_param.prefixes().len(), bytes).map(Poplar1FieldVec::Inner)
@@ -899,6 +909,11 @@ impl<P: Xof<SEED_SIZE>, const SEED_SIZE: usize> Poplar1<P, SEED_SIZE> {
         idpf_random: &[[u8; 16]; 2],
         poplar_random: &[[u8; SEED_SIZE]; 3],
     ) -> Result<(Poplar1PublicShare, Vec<Poplar1InputShare<SEED_SIZE>>), VdafError> {
+        if self.bits == 0 {
+            return Err(VdafError::Uncategorized(
+                "Poplar1 requires inputs of at least one bit".to_string(),
+            ));
+        }
         if input.len() != self.bits {
             return Err(VdafError::Uncategorized(format!(
                 "unexpected input length ({})",
@@ -1102,7 +1117,7 @@ impl<P: Xof<SEED_SIZE>, const SEED_SIZE: usize> Aggregator<SEED_SIZE, 16>
             }
         };
 
-        if usize::from(agg_param.level) < self.bits - 1 {
+        if usize::from(agg_param.level) + 1 < self.bits {
             let mut corr_prng = self.init_prng::<_, _, Field64>(
                 input_share.corr_seed.as_ref(),
                 DST_CORR_INNER,
@@ -1285,7 +1300,7 @@ impl<P: Xof<SEED_SIZE>, const SEED_SIZE: usize> Aggregator<SEED_SIZE, 16>
 
     fn aggregate_init(&self, agg_param: &Self::AggregationParam) -> Self::AggregateShare {
         Poplar1FieldVec::zero(
-            usize::from(agg_param.level) == self.bits - 1,
+            usize::from(agg_param.level) + 1 == self.bits,
             agg_param.prefixes.len(),
         )
     }
@@ -1332,7 +1347,7 @@ impl<P: Xof<SEED_SIZE>, const SEED_SIZE: usize> Collector for Poplar1<P, SEED_SI
         _num_measurements: usize,
     ) -> Result<Vec<u64>, VdafError> {
         let result = aggregate(
-            usize::from(agg_param.level) == self.bits - 1,
+            usize::from(agg_param.level) + 1 == self.bits,
             agg_param.prefixes.len(),
             agg_shares,
         )?;
